@@ -87,7 +87,7 @@ func init() {
 			obs := c.BitStorageGuards()
 			obs = append(obs, c.BitStorageFixSibling()...)
 			obs = append(obs, c.wireObs(func(p, t string) bool { return p == "level" && t == "BitStorage" })...)
-			in := recvPred("level", "BitStorage")
+			in := c.reachFromTypes("level", []string{"BitStorage"}, "NewBitStorage")
 			obs = append(obs, c.TLGObs(in, in, false)...)
 			return obs
 		},
